@@ -505,7 +505,11 @@ func newSUT(k *kase) (*sut, error) {
 		s.retained = c.VerifRetained
 		s.expire = func(id int) {
 			if id >= 1 && id <= len(reg) && reg[id-1] != nil {
-				reg[id-1].ExpirableItem = lru.NewCacheItem(id, farPast)
+				at := farPast
+				if id%2 == 0 {
+					at = time.Time{} // the zero time lies before any "now" as well
+				}
+				reg[id-1].ExpirableItem = lru.NewCacheItem(id, at)
 			}
 		}
 	default:
@@ -1450,7 +1454,7 @@ func TestCheck(t *testing.T) {
 	defer run.Finish(t)
 	run.Rule("every legal call sequence over {GetOrCreate(k) with a succeeding create, GetOrCreate(k) with a failing create, Remove(k), Clear (, Expire(k) for the expirable variant; both spellings of k for the ECache variant)} to the stated depth for capacities 1..4 on lru.Cache, lru.ECache(strings.ToLower) and lru.ExpirableCache, with and without a delete callback, each followed by an ending that exposes the whole recency order (Clear, or probe + cap fresh insertions + Clear); plus seeded random sequences of 10^3..10^4 calls for capacities up to 64 over about 2*capacity keys; after every call the returned value/error/bool/count, the create-callback calls and the delete-callback calls of that call and the resident count (hook) are compared with a list model. distinct = distinct (variant, callback present, capacity, recency order of resident keys incl. stored spelling and expired flag, operation, outcome class) transitions observed (for capacities > 4 the order is replaced by the number of residents)")
 	run.Assume("single goroutine per cache (concurrency is C09)")
-	run.Assume("expirable variant: items are created fresh (expiry year 2400) and become expired only by the harness moving the resident item's expiry to 1971 (custom CacheItem embedding lru.ExpirableItem); in the model-checked sequences a create function that returns an already expired item and a failing re-creation of an expired resident are not generated because the statement does not define them; origins serving stale items are driven separately (child process) and judged only on what the statement determines: the call returns, replaced items get exactly one delete callback, the resident one none, at most the least recently used resident is evicted")
+	run.Assume("expirable variant: items are created fresh (expiry year 2400) and become expired only by the harness moving the resident item's expiry to 1971 or to the zero time (both lie before any now) (custom CacheItem embedding lru.ExpirableItem); in the model-checked sequences a create function that returns an already expired item and a failing re-creation of an expired resident are not generated because the statement does not define them; origins serving stale items are driven separately (child process) and judged only on what the statement determines: the call returns, replaced items get exactly one delete callback, the resident one none, at most the least recently used resident is evicted")
 	run.Assume("the order of the delete callbacks inside one Clear is taken to be least-recently-used first (DESIGN §3 C08); a reordering is reported under its own signature …/Clear[clear]/callback-order")
 	run.Assume("the relative order of create-callback and delete-callback calls inside one call is not judged")
 
